@@ -29,7 +29,9 @@ Record details := {                        (* types.EventDetails as built in the
   d_pub : N;                               (* msg.publication *)
   d_publisher : option N;                  (* msg.publisher *)
   d_topic : N;                             (* msg.topic or subscription.topic *)
-  d_retained : option bool }.              (* msg.retained *)
+  d_retained : option bool;                (* msg.retained *)
+  d_extra : N }.                           (* the remaining fields, kept opaque: a token naming the combination of
+                                              publisher_authid, publisher_authrole, transaction_hash and forward_for *)
 
 Inductive kval := KInt (z : Z) | KDet (d : details).
 Definition kwargs := list (key * kval).    (* a Python dict: insertion ordered, unique keys *)
@@ -302,12 +304,13 @@ Definition api_unsubscribe (s : sess) (l : N) : sess * list out :=
 (* ------------------------------------------------------------------ EVENT *)
 Record event := {
   e_sub : N; e_pub : N; e_args : list Z; e_kwargs : kwargs;
-  e_publisher : option N; e_topic : option N; e_retained : option bool }.
+  e_publisher : option N; e_topic : option N; e_retained : option bool;
+  e_extra : N }.                           (* publisher_authid / publisher_authrole / transaction_hash / forward_for, opaque *)
 
 Definition mk_details (e : subent) (ev : event) : details :=
   {| d_owner := se_label e; d_sub := e_sub ev; d_pub := e_pub ev; d_publisher := e_publisher ev;
      d_topic := match e_topic ev with Some t => t | None => se_topic e end;      (* msg.topic or subscription.topic *)
-     d_retained := e_retained ev |}.
+     d_retained := e_retained ev; d_extra := e_extra ev |}.
 
 (* invoke_kwargs = dict(msg.kwargs) if msg.kwargs else dict()      -- a fresh dict for every handler
    if handler.details_arg: invoke_kwargs[handler.details_arg] = types.EventDetails(subscription, ...) *)
